@@ -104,8 +104,9 @@ Step(op, d, n, c, st, req, res, view) ==
 
 EntsSet == { [n \in Names |-> IF n \in SpecNames THEN a[n] ELSE b[n]] :
                a \in [SpecNames -> Contents \cup {NoneC}], b \in [NoiseNames -> NoiseContents \cup {NoneC}] }
-DirStates == { [st |-> "dir", ents |-> e] : e \in EntsSet }
-             \cup { [st |-> s, ents |-> EmptyEnts] : s \in InitStates \ {"dir"} }
+\* "noperm": a directory the process may not read (mode 000): it keeps its entries, nothing of them is visible
+DirStates == { [st |-> s, ents |-> e] : s \in InitStates \cap {"dir", "noperm"}, e \in EntsSet }
+             \cup { [st |-> s, ents |-> EmptyEnts] : s \in InitStates \ {"dir", "noperm"} }
 Used(ds) == { ds[i] : i \in 1..Len(ds) }
 
 Init ==
@@ -146,6 +147,14 @@ FsDirState(d, st) ==
   /\ fs' = [fs EXCEPT ![d] = [st |-> st, ents |-> EmptyEnts]]
   /\ fresh' = FALSE
   /\ hist' = Append(hist, Step("dirstate", d, "", NoneC, st, NoTok, NoTok, NoView))
+  /\ UNCHANGED <<dirs, idx, fs0>>
+
+\* chmod 000 / chmod 755 of a configured directory: the entries stay, the scan cannot list them
+FsChmod(d) ==
+  /\ Budget /\ Mutate /\ Configured(d) /\ fs[d].st \in {"dir", "noperm"}
+  /\ fs' = [fs EXCEPT ![d].st = IF @ = "dir" THEN "noperm" ELSE "dir"]
+  /\ fresh' = FALSE
+  /\ hist' = Append(hist, Step("chmod", d, "", NoneC, fs'[d].st, NoTok, NoTok, NoView))
   /\ UNCHANGED <<dirs, idx, fs0>>
 
 \* Cache.Refresh() in manual mode: rescan, swap the index in wholesale
@@ -194,6 +203,7 @@ Next ==
         \/ \E d \in DirIds, n \in NoiseNames, c \in NoiseContents : FsWrite(d, n, c)
         \/ \E d \in DirIds, n \in Names : FsRemove(d, n)
         \/ \E d \in DirIds, st \in {"missing", "dir", "notdir", "badanc"} : FsDirState(d, st)
+  \/ "chmod" \in OPS /\ \E d \in DirIds : FsChmod(d)
   \/ "refresh" \in OPS /\ Refresh
   \/ /\ "api" \in OPS
      /\ \/ \E n \in SpecNames, c \in { x \in WContents : x.k = "ok" } : ApiWrite(n, c)
